@@ -247,7 +247,7 @@ func (w *worker) run(j *Job) {
 		if err == nil {
 			for i, it := range res.BySink("in") {
 				if i < len(evs) && it.Batch != nil {
-					if b, derr := DecodeInBatch(it.Batch); derr == nil {
+					if b, derr := DecodeInBatch(it.Batch, ""); derr == nil {
 						evs[i]["seen"] = EncInBatch(b)["pts"]
 					}
 				}
@@ -271,7 +271,7 @@ func (w *worker) run(j *Job) {
 		if err == nil {
 			// the batches the node under test was really given: the output of the real window node
 			for _, it := range res.BySink("win") {
-				b, derr := DecodeInBatch(it.Batch)
+				b, derr := DecodeInBatch(it.Batch, "")
 				if derr != nil {
 					rt.Fatalf("c11: %v", derr)
 				}
